@@ -47,6 +47,11 @@ def run(case):
     if case["mode"] == "ddp":
         S = c06.make_setup({"seed": case["seed"]})
         S["T"] = min(S["T"], 3)
+        if case["seed"][-1] % 2 == 0:
+            # communication dtype WIDER than the parameter dtype: buffer slots must be sized by the communication dtype
+            S["cfg"]["param_dtype"] = "bfloat16"
+            S["cfg"]["preconditioner_dtype"] = "float32"
+            S["comm"] = "FP32" if case["seed"][-1] % 4 == 0 else "DEFAULT"
         W, G, R = S["W"], S["G"], S["W"] // S["G"]
         world = ranksim.World(W, interleave_seed=1)
         results = world.run(lambda rank, w: c06.rank_program(ds, torch, S, case["seed"], rank, w, with_twin=False))
